@@ -3,6 +3,8 @@ import NA.Proofs.F1Lines
 import NA.Proofs.F1Equalize
 import NA.Proofs.F1Converge
 import NA.Proofs.F1EndToEnd
+import NA.Proofs.F1K2
+import NA.Proofs.F1Idem
 /-!
 # F1 — the ASA diff engine on the fragment {access-group, access-list + object-group network, route}
 
@@ -25,6 +27,9 @@ script with the real `drc` line by line on every generated pair (harness/f1).  S
   line that uses it, nothing is removed before `deleteUnused`, `deleteUnused` adds no line;
   `tail_acl_before_group`: an access list is cleared before a group it references is removed.
 * `idempotent_counterexample` — F-C01b, evaluated by the kernel on the model and the strict device.
+* Round 3 (section 8): `asa_F1_converges`, `asa_F1_unchanged_only_if_equivalent`, `asa_F1_resume_partial` for class K2
+  (`k2Check`: several access-group commands, all branches of the access-list comparison, shared groups, routes,
+  `deleteUnused`), `asa_F1_iso_quiet` and `asa_F1_idempotent_partial` for the static class ISO (`isoCheck`).
 -/
 namespace NA.F1
 open NA.AsaDev
@@ -272,12 +277,190 @@ example : ∃ d', LStep exEnv (generateNames exEnv exInit.1) (ofConfig exDev)
 this theorem, it only is not removed). -/
 example : k1Check exDev exTgt exScripts = true := by decide
 
+/-! ## 8. Round 3: the whole engine on the strict device, class K2
+
+Class K2 (`k2Check`, one decidable predicate over the two configurations and the Myers scripts, evaluated by the
+driver on every generated case): several access-group commands (in/out, several interfaces); commands of
+interfaces unknown to the target stay (`markNeeded`); the compared commands of device and target sit at the
+same (direction, interface) places (`bindsShape`: no command is added or removed); every pair of bound access
+lists goes through ANY of the four branches of `diffCmds` for access lists (device ACL already `needed` →
+transfer; target ACL already `ready`; no parts equal → `markDeleted` + transfer of a new ACL and re-binding;
+incremental `diffASAACLs` with the counted hypothesis `hyp:ok`), object-groups shared between lines and
+access lists in any way; routes with pairwise different destinations per side (add, remove, replace);
+`deleteUnused` with cleared access lists and removed groups.
+Outside: access-group commands added/removed by the target (`bind:*` branches other than `changed-ref`),
+runs with `hyp:no-kept-line` / `hyp:duplicate-text` (F-C08a), two device routes to one destination. -/
+
+/-- **`asa_F1_converges`** — END TO END for class K2: the WHOLE script printed by the engine is accepted by the
+strict device started on the device configuration, and the resulting device carries the target: interfaces
+and the places of access-group commands as before; at every place named by the target an access list is bound
+that has the target's length and, position by position, the target's text up to group names, every referenced
+group existing with exactly the target group's members; the routes are the target's routes as a set (if the
+target has none, the old ones stay). -/
+theorem asa_F1_converges (a b : Config) (sc : Scripts) (hc : k2Check a b sc = true) :
+    ∃ script d', (engine a b sc).map (·.script) = some script ∧ exec (ofConfig a) script = some d' ∧
+      Converged ⟨a, b, sc⟩ d' := k2_converges a b sc hc
+
+/-- **`asa_F1_unchanged_only_if_equivalent`** (C08, class K2): if the engine prints NO change, the device
+already carries the target. -/
+theorem asa_F1_unchanged_only_if_equivalent (a b : Config) (sc : Scripts) (hc : k2Check a b sc = true)
+    (h : (engine a b sc).map (·.script) = some []) : Converged ⟨a, b, sc⟩ (ofConfig a) := by
+  obtain ⟨script, d', h1, h2, h3⟩ := k2_converges a b sc hc
+  rw [h] at h1
+  have : script = [] := by simpa using h1.symm
+  subst this
+  have : d' = ofConfig a := by simpa [exec] using h2.symm
+  rw [← this]; exact h3
+
+/-- **`asa_F1_resume_partial`** (C10, class K2): EVERY prefix of the printed script is accepted by the strict
+device; and whatever configuration `a'` the device shows after that prefix (`ofConfig a' = dm`), with whatever
+Myers scripts `sc'` of the new comparison: if the pair (`a'`, target) is again in class K2, planning again and
+executing on the interrupted device is accepted and ends in a device that carries the target.
+FULL statement (not closed): the same without the hypothesis `k2Check a' b sc'`, for `a'` read back from `dm`
+and `sc'` valid scripts.  MISSING PIECE: class K2 is not shown to be closed under executing a prefix of the
+script — the counted run hypothesis `hyp:ok` of the NEW plan (F-C08a is reachable from an interrupted run) and
+the binding shape after a cut between `access-list … -DRC-0` and its `access-group`.  The harness evaluates
+`k2Check` on every cut state and runs the real code there (C10 oracle on all cut states, in or out of K2). -/
+theorem asa_F1_resume_partial (a b : Config) (sc : Scripts) (hc : k2Check a b sc = true) :
+    ∃ script, (engine a b sc).map (·.script) = some script ∧
+      ∀ pre suf, script = pre ++ suf → ∃ dm, exec (ofConfig a) pre = some dm ∧
+        ∀ a' sc', ofConfig a' = dm → k2Check a' b sc' = true →
+          ∃ script' d'', (engine a' b sc').map (·.script) = some script' ∧ exec dm script' = some d'' ∧
+            Converged ⟨a', b, sc'⟩ d'' := by
+  obtain ⟨script, d', h1, h2, _⟩ := k2_converges a b sc hc
+  refine ⟨script, h1, ?_⟩
+  intro pre suf hs
+  rw [hs, exec_append] at h2
+  cases hp : exec (ofConfig a) pre with
+  | none => rw [hp] at h2; simp at h2
+  | some dm =>
+    refine ⟨dm, rfl, ?_⟩
+    intro a' sc' ha' hc'
+    obtain ⟨script', d'', g1, g2, g3⟩ := k2_converges a' b sc' hc'
+    exact ⟨script', d'', g1, by rw [← ha']; exact g2, g3⟩
+
+/-! ### Non-vacuity: a device with three compared access-group commands (in and out, two interfaces), one command
+of an interface unknown to the target, a group shared by two access lists, an unshared new group, an access
+list replaced as a whole (re-binding) and route add + replace is in class K2. -/
+
+def xLine (proto port g : String) : Line :=
+  ⟨["permit " ++ proto ++ " object-group ", " any4 eq " ++ port], ["permit " ++ proto ++ " object-group ", " any4 eq " ++ port], [g]⟩
+
+def ex2Dev : Config :=
+  { intfs := ["inside", "outside", "dmz"],
+    groups := [("g_web", ["host 10.1.1.1", "host 10.1.1.2"]), ("g_db", ["host 10.2.2.2"]), ("g_dmz", ["host 10.3.3.3"])],
+    acls := [("inside_in", [xLine "tcp" "22" "g_web", xLine "tcp" "80" "g_web"]), ("inside_out", [xLine "udp" "53" "g_db"]),
+             ("outside_in", [xLine "tcp" "443" "g_web"]), ("dmz_in", [xLine "tcp" "25" "g_dmz"])],
+    binds := [⟨"inside_in", "in", "inside"⟩, ⟨"inside_out", "out", "inside"⟩, ⟨"outside_in", "in", "outside"⟩, ⟨"dmz_in", "in", "dmz"⟩],
+    routes := [⟨"inside 10.9.0.0 255.255.0.0 10.1.1.254", "10.9.0.0/16", 112⟩, ⟨"outside 0.0.0.0 0.0.0.0 1.1.1.1", "0.0.0.0/0", 128⟩] }
+
+def ex2Tgt : Config :=
+  { groups := [("g_web", ["host 10.1.1.1", "host 10.1.1.3"]), ("g_db", ["host 10.2.2.2"]), ("g_new", ["host 10.4.4.4"])],
+    acls := [("inside_in", [xLine "tcp" "22" "g_web", xLine "tcp" "8080" "g_new", xLine "tcp" "80" "g_web"]),
+             ("inside_out", [xLine "udp" "53" "g_db"]), ("outside_in2", [xLine "udp" "500" "g_web"])],
+    binds := [⟨"inside_in", "in", "inside"⟩, ⟨"inside_out", "out", "inside"⟩, ⟨"outside_in2", "in", "outside"⟩],
+    routes := [⟨"inside 10.9.0.0 255.255.0.0 10.1.1.253", "10.9.0.0/16", 112⟩, ⟨"outside 0.0.0.0 0.0.0.0 1.1.1.1", "0.0.0.0/0", 128⟩,
+               ⟨"inside 10.8.0.0 255.255.0.0 10.1.1.253", "10.8.0.0/16", 112⟩] }
+
+def ex2Scripts : Scripts :=
+  { acl := [(("inside_in", "inside_in"), [⟨0, 1, 0, 1⟩, ⟨1, 1, 1, 2⟩, ⟨1, 2, 2, 3⟩]), (("inside_out", "inside_out"), [⟨0, 1, 0, 1⟩]),
+            (("outside_in", "outside_in2"), [⟨0, 1, 0, 0⟩, ⟨1, 1, 0, 1⟩])],
+    grp := [(("g_web", "g_web"), [⟨0, 1, 0, 1⟩, ⟨1, 2, 1, 1⟩, ⟨2, 2, 1, 2⟩]), (("g_web", "g_db"), [⟨0, 2, 0, 0⟩, ⟨2, 2, 0, 1⟩]),
+            (("g_web", "g_new"), [⟨0, 2, 0, 0⟩, ⟨2, 2, 0, 1⟩]), (("g_db", "g_web"), [⟨0, 1, 0, 0⟩, ⟨1, 1, 0, 2⟩]),
+            (("g_db", "g_db"), [⟨0, 1, 0, 1⟩]), (("g_db", "g_new"), [⟨0, 1, 0, 0⟩, ⟨1, 1, 0, 1⟩]),
+            (("g_dmz", "g_web"), [⟨0, 1, 0, 0⟩, ⟨1, 1, 0, 2⟩]), (("g_dmz", "g_db"), [⟨0, 1, 0, 0⟩, ⟨1, 1, 0, 1⟩]),
+            (("g_dmz", "g_new"), [⟨0, 1, 0, 0⟩, ⟨1, 1, 0, 1⟩])] }
+
+/-- Non-vacuity of `asa_F1_converges` / `asa_F1_resume_partial`. -/
+example : k2Check ex2Dev ex2Tgt ex2Scripts = true := by decide
+
+/-- ... and what the engine prints there (11 commands: group edit in place, new group, line insert, new access
+list + re-binding, route add, route replace, clean-up). -/
+example : (engine ex2Dev ex2Tgt ex2Scripts).map (fun r => showChanges r.script) = some [
+    "object-group network g_web", "no network-object host 10.1.1.2", "network-object host 10.1.1.3",
+    "object-group network g_new-DRC-0", "network-object host 10.4.4.4",
+    "access-list inside_in line 2 extended permit tcp object-group g_new-DRC-0 any4 eq 8080",
+    "access-list outside_in2-DRC-0 extended permit udp object-group g_web any4 eq 500",
+    "access-group outside_in2-DRC-0 in interface outside", "route inside 10.8.0.0 255.255.0.0 10.1.1.253",
+    "no route inside 10.9.0.0 255.255.0.0 10.1.1.254\\N route inside 10.9.0.0 255.255.0.0 10.1.1.253",
+    "clear configure access-list outside_in"] := by decide
+
+/-- Non-vacuity of `asa_F1_unchanged_only_if_equivalent`: target = device (own names, identity scripts) is in
+class K2 and the engine prints nothing. -/
+def ex3Tgt : Config := { ex2Dev with intfs := [], binds := ex2Dev.binds.take 3, acls := ex2Dev.acls.take 3, groups := ex2Dev.groups.take 2 }
+def ex3Scripts : Scripts :=
+  { acl := [(("inside_in", "inside_in"), [⟨0, 2, 0, 2⟩]), (("inside_out", "inside_out"), [⟨0, 1, 0, 1⟩]), (("outside_in", "outside_in"), [⟨0, 1, 0, 1⟩])],
+    grp := [(("g_web", "g_web"), [⟨0, 2, 0, 2⟩]), (("g_web", "g_db"), [⟨0, 2, 0, 0⟩, ⟨2, 2, 0, 1⟩]),
+            (("g_db", "g_web"), [⟨0, 1, 0, 0⟩, ⟨1, 1, 0, 2⟩]), (("g_db", "g_db"), [⟨0, 1, 0, 1⟩]),
+            (("g_dmz", "g_web"), [⟨0, 1, 0, 0⟩, ⟨1, 1, 0, 2⟩]), (("g_dmz", "g_db"), [⟨0, 1, 0, 0⟩, ⟨1, 1, 0, 1⟩])] }
+example : k2Check ex2Dev ex3Tgt ex3Scripts = true ∧ (engine ex2Dev ex3Tgt ex3Scripts).map (·.script) = some [] := by
+  constructor <;> decide
+
+/-! ### Idempotence
+
+Class ISO (`isoCheck`, decidable and STATIC — it does not evaluate the engine): the compared access-group
+commands sit at the same places; the bound access lists are paired one to one and their passed scripts are one
+"equal" range over all lines; the object-groups referenced at the same positions of paired lines are paired one
+to one, their passed scripts keep every member; none of these objects is used by a command of an unknown
+interface; same routes; every generated (`-DRC-`) object is one of the paired ones (or needed by an unknown
+interface). -/
+
+/-- **`asa_F1_iso_quiet`** — a comparison in class ISO prints NOTHING (all of `diffConfig`: the anchors, the
+incremental access-list comparison with `equalizedGroups` of every referenced pair, the routes, `deleteUnused`). -/
+theorem asa_F1_iso_quiet (a b : Config) (sc : Scripts) (hc : isoCheck a b sc = true) :
+    (engine a b sc).map (·.script) = some [] := iso_quiet a b sc hc
+
+/-- **`asa_F1_idempotent_partial`** (class K2 for the first run, class ISO for the second): the script of the
+first run is accepted and ends in a device that carries the target; whatever configuration `a'` that device
+shows and whatever scripts `sc'` the second comparison passes: if (`a'`, target, `sc'`) is in class ISO, the
+second plan is EMPTY.
+FULL statement (false in general — F-C01b, `idempotent_counterexample`): the same without `isoCheck`.
+MISSING PIECE: the bridge from the semantic result `Converged` to the syntactic class ISO — (1) no left-over
+generated object (fails exactly in F-C01b: a group adopted early by `findGroupOnDevice` and then abandoned),
+(2) one-to-one pairing of the groups (the first run never merges two target groups into one device group, not
+proved), (3) the Myers scripts of two equal lists are identity scripts (a property of `myers.Diff`, outside
+the model).  The harness evaluates `isoCheck` on every second comparison and counts how often it holds. -/
+theorem asa_F1_idempotent_partial (a b : Config) (sc : Scripts) (hc : k2Check a b sc = true) :
+    ∃ script d', (engine a b sc).map (·.script) = some script ∧ exec (ofConfig a) script = some d' ∧
+      Converged ⟨a, b, sc⟩ d' ∧
+      ∀ a' sc', ofConfig a' = d' → isoCheck a' b sc' = true → (engine a' b sc').map (·.script) = some [] := by
+  obtain ⟨script, d', h1, h2, h3⟩ := k2_converges a b sc hc
+  exact ⟨script, d', h1, h2, h3, fun a' sc' _ hc' => iso_quiet a' b sc' hc'⟩
+
+/-- The device after the run of the K2 example, as a configuration to compare again ... -/
+def ex4Dev : Config :=
+  { intfs := ["inside", "outside", "dmz"],
+    groups := [("g_web", ["host 10.1.1.1", "host 10.1.1.3"]), ("g_db", ["host 10.2.2.2"]), ("g_dmz", ["host 10.3.3.3"]),
+               ("g_new-DRC-0", ["host 10.4.4.4"])],
+    acls := [("inside_in", [xLine "tcp" "22" "g_web", xLine "tcp" "8080" "g_new-DRC-0", xLine "tcp" "80" "g_web"]),
+             ("inside_out", [xLine "udp" "53" "g_db"]), ("dmz_in", [xLine "tcp" "25" "g_dmz"]),
+             ("outside_in2-DRC-0", [xLine "udp" "500" "g_web"])],
+    binds := [⟨"inside_in", "in", "inside"⟩, ⟨"inside_out", "out", "inside"⟩, ⟨"outside_in2-DRC-0", "in", "outside"⟩, ⟨"dmz_in", "in", "dmz"⟩],
+    routes := [⟨"outside 0.0.0.0 0.0.0.0 1.1.1.1", "0.0.0.0/0", 128⟩, ⟨"inside 10.8.0.0 255.255.0.0 10.1.1.253", "10.8.0.0/16", 112⟩,
+               ⟨"inside 10.9.0.0 255.255.0.0 10.1.1.253", "10.9.0.0/16", 112⟩] }
+
+/-- ... with the identity scripts of the second comparison. -/
+def ex4Scripts : Scripts :=
+  { acl := [(("inside_in", "inside_in"), [⟨0, 3, 0, 3⟩]), (("inside_out", "inside_out"), [⟨0, 1, 0, 1⟩]),
+            (("outside_in2-DRC-0", "outside_in2"), [⟨0, 1, 0, 1⟩])],
+    grp := [(("g_web", "g_web"), [⟨0, 2, 0, 2⟩]), (("g_db", "g_db"), [⟨0, 1, 0, 1⟩]), (("g_new-DRC-0", "g_new"), [⟨0, 1, 0, 1⟩])] }
+
+/-- Non-vacuity of `asa_F1_idempotent_partial` / `asa_F1_iso_quiet`: the strict device after the first run of the
+K2 example IS `ofConfig ex4Dev`, and (`ex4Dev`, target) is in class ISO (renamed group and access list). -/
+example : (engine ex2Dev ex2Tgt ex2Scripts).bind (fun r => exec (ofConfig ex2Dev) r.script) = some (ofConfig ex4Dev) ∧
+    isoCheck ex4Dev ex2Tgt ex4Scripts = true := by constructor <;> decide
+
+/-- F-C01b is outside class ISO (the left-over group). -/
+example : (exAfter.map fun d' => isoCheck (toConfig d') exTgt exScripts2) = some false := by decide
+
 def obligations : List Lean.Name := [
   ``names_fresh, ``names_injective, ``findGroup_sound, ``findGroup_first,
   ``group_equalize_converges, ``group_edit_emits_memOps, ``group_needed_never_edited, ``group_edit_only_if_small,
   ``asa_lines_with_groups_converge, ``merged_list_projects,
   ``objects_before_use, ``tail_acl_before_group,
   ``sem_initial, ``group_equalize_converges_dev, ``equalizedGroups_sound, ``transferGroup_sound,
-  ``asa_acl_pair_converges_partial, ``asa_F1_converges_partial, ``deleteUnused_accepted, ``idempotent_counterexample]
+  ``asa_acl_pair_converges_partial, ``asa_F1_converges_partial, ``deleteUnused_accepted, ``idempotent_counterexample,
+  ``asa_F1_converges, ``asa_F1_unchanged_only_if_equivalent, ``asa_F1_resume_partial,
+  ``asa_F1_iso_quiet, ``asa_F1_idempotent_partial]
 
 end NA.F1
